@@ -42,6 +42,9 @@ pub struct Case {
   /// another subscriber of the same subject, subscribed before the conversion:
   /// 0 none, 1 unsubscribed at once (a closed entry ahead of the conversion), 2 stays
   pub bystander: u8,
+  /// the conversion hangs on `subject.share()` / `share_threads()` instead of the subject itself;
+  /// an earlier `take(1)` subscriber of the share has already been served and has finished
+  pub via_share: bool,
 }
 
 fn script_of(c: &Case) -> Vec<N> {
@@ -74,7 +77,7 @@ fn inject<S: Observer<V, E> + Clone>(s: &mut S, n: &N) {
 }
 
 macro_rules! drive {
-  ($subj:ty, $c:expr) => {{
+  ($subj:ty, $boxty:ty, $share:ident, $c:expr) => {{
     let c: &Case = $c;
     let mut subj = <$subj>::default();
     let _bystander = match c.bystander {
@@ -84,6 +87,17 @@ macro_rules! drive {
         None
       }
       _ => Some(subj.clone().actual_subscribe(Probe::new(900, &Log::new()))),
+    };
+    // what the conversion is attached to: the subject itself, or a share of it whose first
+    // subscriber (take(1)) has been served by one item and is finished
+    let conv_src: $boxty = if c.via_share {
+      let b: $boxty = subj.clone().box_it();
+      let sh = b.$share();
+      std::mem::forget(sh.clone().take(1).actual_subscribe(Probe::new(901, &Log::new())));
+      subj.next(V::I(-1));
+      sh.box_it()
+    } else {
+      subj.clone().box_it()
     };
     let script = script_of(c);
     let term_pos = c.steps.iter().position(|s| matches!(s, Step::Ev(n) if n.is_terminal()));
@@ -98,7 +112,7 @@ macro_rules! drive {
     let terminal = script.last().filter(|n| n.is_terminal()).cloned();
     match c.conv {
       Conv::Future => {
-        let mut fut = Box::pin(subj.clone().to_future());
+        let mut fut = Box::pin(conv_src.to_future());
         let mut resolved: Option<FOut> = None;
         let mut wakes_at_pending = 0usize;
         let mut last_pending = false;
@@ -170,7 +184,7 @@ macro_rules! drive {
         }
       }
       Conv::Stream => {
-        let mut st = Box::pin(subj.clone().to_stream());
+        let mut st = Box::pin(conv_src.to_stream());
         let mut got: Vec<N> = vec![];
         let mut ended = false;
         let mut poll_one = |i: usize, st: &mut Pin<Box<rxrust::ops::stream::ObservableStream<V, E>>>, got: &mut Vec<N>, ended: &mut bool, polls: &mut Vec<(usize, String)>| -> bool {
@@ -251,7 +265,7 @@ macro_rules! drive {
       }
       Conv::Status => {
         let log = Log::new();
-        let (o, status) = subj.clone().complete_status();
+        let (o, status) = conv_src.complete_status();
         o.actual_subscribe(Probe::new(1, &log));
         let check = |status: &Arc<CompleteStatus>, seen: &[N]| -> Option<String> {
           let t = seen.iter().find(|n| n.is_terminal());
@@ -302,7 +316,7 @@ macro_rules! drive {
 }
 
 pub fn observe(c: &Case) -> Result<Obs, String> {
-  catch(|| if c.threads { drive!(SubjectThreads<V, E>, c) } else { drive!(Subject<'static, V, E>, c) })
+  catch(|| if c.threads { drive!(SubjectThreads<V, E>, rxrust::ops::box_it::BoxOpThreads<V, E>, share_threads, c) } else { drive!(Subject<'static, V, E>, rxrust::ops::box_it::BoxOp<'static, V, E>, share, c) })
 }
 
 // --------------------------------------------------------------------------
@@ -405,7 +419,7 @@ pub fn random_case(r: &mut Rng, max_items: usize) -> Case {
   for _ in 0..r.below(3) {
     steps.push(Step::Poll);
   }
-  Case { conv, steps, threads: r.chance(1, 2), bystander: [0, 0, 1, 2][r.below(4)] }
+  Case { conv, steps, threads: r.chance(1, 2), bystander: [0, 0, 1, 2][r.below(4)], via_share: r.chance(1, 4) }
 }
 
 pub fn run(cfg: &Cfg, rep: &mut Report) {
